@@ -668,7 +668,7 @@ class RemoteStreamFlowPath(
                 '"$1"',
                 "&&",
                 "printf",
-                "'%s\\n'",
+                "'%s\\0'",
                 '"$@"',
                 ";",
                 ":",
@@ -677,8 +677,9 @@ class RemoteStreamFlowPath(
                 location=self.location, command=command, capture_output=True
             )
             _check_status(command, self.location, result, status)
-            for path in result.split():
-                yield self.with_segments(path)
+            for path in result.split("\0"):
+                if path:
+                    yield self.with_segments(path)
 
     async def is_dir(self) -> bool:
         if (inner_path := await self._get_inner_path()) != self:
